@@ -12,14 +12,20 @@ import (
 func New() *Handler {
 	return &Handler{
 		m:        new(sync.Mutex),
-		requests: map[int64]chan event{},
+		requests: map[int64]client{},
 	}
 }
 
 type Handler struct {
 	m        *sync.Mutex
 	counter  int64
-	requests map[int64]chan event
+	requests map[int64]client
+}
+
+// client is a connected browser: its event channel and the done channel of its request context.
+type client struct {
+	events chan event
+	done   <-chan struct{}
 }
 
 type event struct {
@@ -31,16 +37,18 @@ type event struct {
 func (s *Handler) Send(eventType string, data string) {
 	s.m.Lock()
 	defer s.m.Unlock()
-	for _, f := range s.requests {
-		f := f
-		go func(f chan event) {
+	for _, c := range s.requests {
+		go func(c client) {
+			f := c.events
 			defer verifRecover(f)
 			verifYield("deliver", 0, f)
-			f <- event{
-				Type: eventType,
-				Data: data,
+			// Deliver unless the client has gone away: its channel is never closed, so a late delivery
+			// cannot panic, and the done channel keeps this goroutine from blocking forever.
+			select {
+			case f <- event{Type: eventType, Data: data}:
+			case <-c.done:
 			}
-		}(f)
+		}(c)
 	}
 }
 
@@ -54,7 +62,7 @@ func (s *Handler) ServeHTTP(w http.ResponseWriter, r *http.Request) {
 	id := atomic.AddInt64(&s.counter, 1)
 	s.m.Lock()
 	events := make(chan event)
-	s.requests[id] = events
+	s.requests[id] = client{events: events, done: r.Context().Done()}
 	s.m.Unlock()
 	verifYield("registered", id, events)
 	defer func() {
@@ -62,7 +70,6 @@ func (s *Handler) ServeHTTP(w http.ResponseWriter, r *http.Request) {
 		s.m.Lock()
 		defer s.m.Unlock()
 		delete(s.requests, id)
-		close(events)
 	}()
 
 	timer := time.NewTimer(0)
